@@ -1,0 +1,12 @@
+//go:build verif
+
+package cmd
+
+import "context"
+
+// VerifWithBackend returns ctx carrying the given Backend, so that a simulation harness outside
+// this package can hand MakeRoot a simulated network getter, clock, quote provider and file IO.
+// Simulation-only: the shipped binary builds its Backend in init().
+func VerifWithBackend(ctx context.Context, b *Backend) context.Context {
+	return context.WithValue(ctx, backendKey, b)
+}
